@@ -134,6 +134,26 @@ Theorem C16_value_atomic_event_fallback_fixed :
 Proof. exact ewi_fallback_fixed. Qed.
 Print Assumptions C16_value_atomic_event_fallback_fixed.
 
+(* one event rotated part way through - the schedule its own Tags() callback produces, or any rotation scheduled between two of
+   its values: head of Process, values [pre], ONE rotation, values [post].  Every value is selected under the options the event
+   fixed at its start; [pre] in the state it started in, [post] in the rotated state. *)
+Theorem C16_callback_schedule : forall K enc derive hkdf hmac (st : fstate K) tid ewi pre w s i post,
+  snd (crun K enc derive hkdf hmac {| cs_f := st; cs_thr := [] |} (AStart K tid ewi :: vals_of K tid pre ++ ARot K w s i :: vals_of K tid post)) =
+    None :: map (fun v => match event_opts K derive st ewi with Some o => value_out K enc hkdf hmac st o (fst v) (snd v) | None => None end) pre
+    ++ None :: map (fun v => match event_opts K derive st ewi with Some o => value_out K enc hkdf hmac (rotate K st w s i) o (fst v) (snd v) | None => None end) post.
+Proof. exact callback_schedule. Qed.
+Print Assumptions C16_callback_schedule.
+
+(* what the check accepts for such an event when it carries per-event wrapper info: whatever the callback rotated (a filter
+   that had no salt / info of its own included), EVERY value of the event - before and after the rotation - is attributed to the
+   key in force when the event started *)
+Theorem C16_callback_event_under_key_at_start : forall c e t,
+  RunCryptoSound.cb_accepted c -> cb_ewi c = Some e -> key_in_force N m_derive (cb_init c) (Some e) = Some t ->
+  exists os1 os2 os3, cb_obs c = CbValues os1 os2 os3 /\
+    Forall2 (fun v o => value_ok t (fst v) o) (cb_pre c) os1 /\ Forall2 (fun v o => value_ok t (fst v) o) (cb_post c) os2.
+Proof. exact cb_accepted_ewi. Qed.
+Print Assumptions C16_callback_event_under_key_at_start.
+
 (* non-vacuity: a history with an event before rotation, Rotate, an event with per-event info (salt from the filter, info
    its own), a rotation payload, an event after it, and an event with an empty event id *)
 Theorem C16_nonvacuous :
@@ -154,8 +174,10 @@ Proof. exact roundtrip_instance. Qed.
    accepted: its observed history is an execution of the model from the case's initial filter state (Rotate returns nothing, a
    rotation payload is consumed, an event fails exactly when there is no key in force, and otherwise every value it produced is
    attributed to exactly key_in_force at that point, decrypts to the original and is framed as Base64.v says), equal data under
-   equal triples gave equal digests, the values produced under concurrent rotation each come from one rotation, and the
-   caller's salt / info slices kept their bytes.  (Identities are interned by the harness, which folds what the cryptography
+   equal triples gave equal digests, the values produced under concurrent rotation each come from one rotation, every event
+   rotated from its own callback is accepted (RunCryptoSound.cb_accepted: its values before the rotation under the triple its
+   options select in the state it started in, those after it under the triple the SAME options select in the rotated state),
+   and the caller's salt / info slices kept their bytes.  (Identities are interned by the harness, which folds what the cryptography
    cannot tell apart: nil = empty salt / info, trailing NUL bytes of an HKDF salt and of an event id.) *)
 Theorem C16_verdict_is_model_execution : forall cs, Run_Crypto.mismatches cs = [] <-> Forall RunCryptoSound.case_accepted cs.
 Proof. exact RunCryptoSound.mismatches_nil_iff. Qed.
